@@ -1552,6 +1552,24 @@ package gedcom
 //@   trusted
 //@   pure
 //@   ensures member-of-the-list: result == nil || exists(i, 0, len(nodes), nodes[i] == result)
+// (the candidates a unique identifier finds come from THIS list: the single
+// lookup returns nobody or a member of the list that has the identifier
+// (UniqueIdentifiers().Has said yes for it), and the plural one collects only
+// what the single lookup - asked about this very list - returned)
+//@ func IndividualNodes.ByUniqueIdentifier
+//@   props C11 C10
+//@   inline
+//@   ghost yes bool = false
+//@   opaque IndividualNode.UniqueIdentifiers, StringSet.Has
+//@   oncall StringSet.Has check this-identifier: arg1 == identifier
+//@   oncall StringSet.Has do yes = result
+//@   loop 1 iter goes-on-only-after-no: !yes
+//@   ensures member-with-the-identifier: result == nil || (yes && exists(i, 0, len(nodes), nodes[i] == result))
+//@ func IndividualNodes.ByUniqueIdentifiers$1
+//@   props C11 C10
+//@   opaque IndividualNodes.ByUniqueIdentifier
+//@   oncall IndividualNodes.ByUniqueIdentifier check of-this-list: arg0 == nodes && arg1 == identifier
+//@   ensures visits-every-identifier: result
 //@ func IndividualNodes.ByUniqueIdentifiers
 //@   only C11 C10
 //@   trusted
@@ -1974,7 +1992,7 @@ package gedcom
 //@   oncall shallowCopyNode do nCopy = nCopy + 1; made = result0
 //@   ensures a-copy-for-the-target-and-descend: nCopy == 1 && result0 == made && result1
 //@ func filter
-//@   props C07
+//@   props C07 C20
 //@   ghost nRec int = 0
 //@   ghost last iface
 //@   ghost nAdd int = 0
